@@ -1,8 +1,11 @@
 (** C02.2/5 -- for EVERY expression of the DSL built from inputs, numbers, nested time shifts, .ss, unary minus, plus,
-    minus, times, DIVISION and positive integer POWERS, every steady state at which no divisor vanishes, every input x0 and
-    dates t, s >= 0: an entry reported by the accumulator denotes the formal derivative d eval_t / d x0_s of the infinite
-    time-path map at the steady state (sum, product, QUOTIENT and POWER rules; shifts commute with differentiation); an entry
-    reported ABSENT has derivative zero everywhere.  Any commutative ring with a division satisfying a/b = a * inv b,
+    minus, times, DIVISION, positive integer POWERS and APPLIED scalar functions e.apply(f), every steady state at which no divisor
+    vanishes, every input x0 and dates t, s >= 0: an entry reported by the accumulator denotes the formal derivative
+    d eval_t / d x0_s of the infinite time-path map at the steady state (sum, product, QUOTIENT, POWER and CHAIN rules; shifts commute
+    with differentiation); an entry reported ABSENT has derivative zero everywhere.  For an applied function the chain rule uses the
+    derivative the implementation supplies next to f: 1/x for np.log, and for every other function the symmetric difference quotient
+    (f(x+h) - f(x-h)) / 2h with h = 1e-5 -- the reported entry is the chain rule WITH THAT QUOTIENT in the place of f' (exact for affine f,
+    off by f''' h^2 / 6 in general; the executable instance [symq] reproduces the implementation's numbers).  Any commutative ring with a division satisfying a/b = a * inv b,
     inv a * a = 1 and a*a <> 0 for a <> 0 (every field: reals, rationals). *)
 From Coq Require Import ZArith Bool List Ring.
 From SSJ Require Import Lib.Sums Model.Shift Model.Sparse Gen.MultiplyBasis Gen.ComputeL Model.SimpleBlk Proofs.SimpleBlkProofs.
